@@ -227,6 +227,18 @@ def run(ctx):
 
 
 def replay(case):
+    from mc.props import c02_multi
+    if case.get('kind') == 'multi-jac':
+        a = c02_multi.work_jac([(tuple(case['spec']), case['point'])])
+        bad = [r['detail'] for k, (n, recs) in a.viol.items() for r in recs
+               if (r['case'].get('cls'), r['case'].get('method'), r['case'].get('order')) == (case['cls'], case['method'], case['order'])]
+        return not bad, '%r -> %s' % ({k: case[k] for k in ('spec', 'point', 'cls', 'method', 'order')}, bad or 'record consistent and honest')
+    if 'xkind' in case and 'entry' in case:
+        return c02_multi.replay(case)
+    if case.get('kind') == 'fun-assigned':
+        a = c02_multi.work_fun_assigned([(case['entry'], case['method'], case['start'])])
+        bad = [r['detail'] for k, (n, recs) in a.viol.items() for r in recs]
+        return not bad, '%r -> %s' % (case, bad or 'the record describes the assigned function')
     if case.get('kind') == 'flag':
         a = work_flags([(case['cls'], case['method'], case['n'], case['order'], case['x'])])
         bad = [r['detail'] for k, (n, recs) in a.viol.items() for r in recs]
